@@ -1187,9 +1187,13 @@ func (lhs *Path) Compare(rhs *Path) int {
 		return -1
 	}
 
-	if !lhs.IsIBGP() && rhs.IsIBGP() {
+	// As in best path selection, a path from a confederation member is
+	// treated as an internal (IBGP learned) path.
+	lhsIBGP := lhs.IsIBGP() || lhs.GetSource().Confederation
+	rhsIBGP := rhs.IsIBGP() || rhs.GetSource().Confederation
+	if !lhsIBGP && rhsIBGP {
 		return 1
-	} else if lhs.IsIBGP() && !rhs.IsIBGP() {
+	} else if lhsIBGP && !rhsIBGP {
 		return -1
 	}
 
